@@ -13,8 +13,8 @@
    separately and failures are collected in `bad` as
      <<position, scenario, step, variant index, clause, <<base mode, filter mode, fast>>>>.
    Answers of modes that do not claim exactness (partial probing) are judged for
-   visibility only; duplicates, more than k rows and rows outside the index under
-   fast search are collected in `info` as observations.                         *)
+   visibility only; duplicates, more than k rows, rows outside the index under
+   fast search and failing queries are collected in `info` as observations.     *)
 EXTENDS VectorQueryOps, Json, IOUtils, SequencesExt
 
 Rec == ndJsonDeserialize(IOEnv.TRACE)
@@ -80,7 +80,7 @@ PurgedExplains(Q, indexUsed, r) ==
 JudgeResult(st, r) ==
   LET Q == QueryOf(st, r.variant)
       indexUsed == r.variant.use_index /\ hasIndex
-      v == IF r.res # "ok" THEN {"QueryFailed"}
+      v == IF r.res # "ok" THEN (IF Q.exact THEN {"QueryFailed"} ELSE {})    \* a failing inexact query is an observation
            ELSE IF ~AllDefined(Q) THEN {}
            ELSE Judge(T, ever, Q, hasIndex, r.rows)
   IN IF v # {} /\ v \subseteq {"QueryFailed", "WrongCount", "NotNearest", "PostFilterLostRow"} /\ AllDefined(Q)
@@ -90,7 +90,8 @@ JudgeResult(st, r) ==
 \* observations about answers of modes that do not claim exactness (reported, not judged)
 ObserveResult(st, r) ==
   LET Q == QueryOf(st, r.variant) IN
-  IF r.res # "ok" \/ ~AllDefined(Q) THEN {} ELSE Observe(T, Q, hasIndex, r.rows)
+  IF r.res # "ok" THEN (IF Q.exact THEN {} ELSE {"QueryFailed"})
+  ELSE IF ~AllDefined(Q) THEN {} ELSE Observe(T, Q, hasIndex, r.rows)
 
 \* counters describing what one variant result exercised
 Facts(st, r) ==
